@@ -83,12 +83,17 @@ class Emit:
                 raise Unsupported("async-ness differs from what the model assumes")
             if cfg.get("auto_helpers", True) and cfg.get("struct") is not None and not cfg.get("pure") and "helper" not in cfg:
                 cfg = dict(cfg)
-                def helper(fnobj, m, _file=file, _self_like=self_like, _cfg=cfg):
-                    """translate self.<m>() on demand: a non-async inherent method of the same type in the same file"""
+                def helper(fnobj, m, free=False, _file=file, _self_like=self_like, _cfg=cfg):
+                    """translate self.<m>() / Self::<m>() / <m>() on demand: a non-async inherent method or associated function of the
+                    same type, or a free function, in the same file"""
                     if m in s.in_progress:
                         raise Unsupported("recursive method " + m)
+                    if free:
+                        _self_like = None
                     try:
-                        s.tr.find(_file, m, None, _self_like)
+                        fo = s.tr.find(_file, m, None, _self_like)
+                        if free and fo.get("impl_self"):
+                            return None
                     except Unsupported:
                         return None
                     s.in_progress.add(m)
